@@ -5,7 +5,7 @@
      vg_glob[VG_GN] / vg_glen   the object holding the filter strings / position of a NUL in it: every pointer
                                 into vg_glob at offset <= vg_glen is the start of a NUL-terminated string
      vg_str[VG_SN]  / vg_slen   the object holding the member name / position of its terminating NUL
-     vg_mg_last                 result of the last completed match_glob activation
+     vg_mg_expect_glob/_str     ghost protocol: arguments the caller is specified to pass to match_glob (NULL = any)
    Arena sizes are ghost sizes only: the proofs are inductive (loop invariants, recursive call replaced by
    the contract) and do not depend on them.
 
@@ -15,12 +15,20 @@
 #include "vg_common.h"
 #include "filter.h"
 
+#ifdef VG_MG_FUN
+#define VG_GN 16                       /* functional groups: the arena size is a real bound (see the end of this file) */
+#define VG_SN 16
+#else
 #define VG_GN 64
 #define VG_SN 64
+#endif
 #define VG_HS 32                       /* size of the objects holding header->path / header->filename */
 char vg_glob[VG_GN], vg_str[VG_SN];
 size_t vg_glen, vg_slen;
-int vg_mg_last;
+char *vg_mg_expect_glob, *vg_mg_expect_str;
+_Bool vg_m[VG_GN + 1][VG_SN + 1];    /* functional groups: the glob relation, see the end of this file */
+#define VG_FIRST_NULS (__CPROVER_forall { size_t vf_; (vf_ < VG_GN) ==> (vf_ < vg_glen ==> vg_glob[vf_] != 0) } && \
+                       __CPROVER_forall { size_t vh_; (vh_ < VG_SN) ==> (vh_ < vg_slen ==> vg_str[vh_] != 0) })
 
 #define VG_GLOB_OK(g)  (__CPROVER_same_object(g, vg_glob) && VG_OFF(g) <= vg_glen)
 #define VG_STR_OK(s)   (__CPROVER_same_object(s, vg_str) && VG_OFF(s) <= vg_slen)
@@ -38,10 +46,11 @@ LHAReader *vg_reader;                  /* opaque */
 /* heap model for the one block matches_filter allocates: the block IS vg_str (so that match_glob's contract,
    stated on the arena, applies to it); size asked for, liveness and number of frees are ghost state */
 size_t vg_alloc_size; int vg_alloc_live, vg_alloc_null; unsigned vg_allocs, vg_frees;
-int vg_hit; unsigned vg_hit_i;         /* set by a woven ghost statement before `break` */
+int vg_hit; unsigned vg_hit_i;         /* set by a woven ghost statement before `break`: a pattern matched, which one */
+unsigned vg_tried;                     /* number of patterns tried without success so far */
 /* results of the callees as seen by lha_filter_next_file */
 LHAFileHeader *vg_rd_last; unsigned vg_rd_calls;
-LHAFileHeader *vg_mf_hdr; int vg_mf_res;
+LHAFileHeader *vg_mf_hdr;
 
 #define VG_HDR_OK   ((vg_hdr.path == NULL || vg_hdr.path == vg_hpath) && (vg_hdr.filename == NULL || vg_hdr.filename == vg_hfile) && \
                      vg_plen < VG_HS && vg_hpath[vg_plen] == 0 && vg_flen < VG_HS && vg_hfile[vg_flen] == 0)
@@ -127,6 +136,7 @@ static void vg_havoc(void)
 	__CPROVER_havoc_object(vg_filters);
 	vg_glen = nondet_size_t(); vg_slen = nondet_size_t(); vg_plen = nondet_size_t(); vg_flen = nondet_size_t();
 	vg_alloc_live = 0; vg_allocs = 0; vg_frees = 0; vg_hit = 0; vg_rd_calls = 0;
+	vg_mg_expect_glob = NULL; vg_mg_expect_str = NULL;
 }
 
 /* match_glob: memory safety (never reads beyond either string's NUL), loops terminate, recursion measure */
@@ -175,31 +185,36 @@ void h_next_file(void)
 }
 
 /* ------------------------------------------------------------------------------------------------------
-   Functional check of match_glob against the textbook definition, for all patterns of at most VG_FG and
-   all strings of at most VG_FS arbitrary bytes (BOUNDED):  m[i][j] <=> glob[i..] matches str[j..] where
-   '*' matches any run of characters (also none), '?' exactly one, any other byte itself (case-sensitive). */
-#ifndef VG_FG
-#define VG_FG 4
-#endif
-#ifndef VG_FS
-#define VG_FS 5
-#endif
+   Functional contract of match_glob (groups with -DVG_MG_FUN): the result is the textbook relation
+       vg_m[i][j]  <=>  pattern suffix vg_glob[i..] matches name suffix vg_str[j..]
+   where '*' matches any run of characters (also none), '?' exactly one, any other byte itself
+   (case-sensitive), both strings ending at their FIRST NUL.  vg_m is computed here, bottom-up, from that
+   definition; the contract `result == vg_m[offset(glob)][offset(str)]` is then proved inductively (loop
+   invariants + recursive call replaced by the contract), so the cost does not grow with the recursion tree.
+   BOUNDED by the arena: patterns and names of at most VG_GN-1 / VG_SN-1 arbitrary bytes. */
+#ifdef VG_MG_FUN
 void h_match_glob_functional(void)
 {
-	char g[VG_FG + 1], s[VG_FS + 1];
-	_Bool m[VG_FG + 2][VG_FS + 2];
-	size_t gl, sl; int i, j, r;
-	for (gl = 0; gl < VG_FG && g[gl] != 0; gl++) { }
-	for (sl = 0; sl < VG_FS && s[sl] != 0; sl++) { }
-	g[gl] = 0; s[sl] = 0;
-	for (i = (int) gl; i >= 0; i--) {
-		for (j = (int) sl; j >= 0; j--) {
-			if (i == (int) gl) m[i][j] = (j == (int) sl);
-			else if (g[i] == '*') m[i][j] = m[i + 1][j] || (j < (int) sl && m[i][j + 1]);
-			else m[i][j] = j < (int) sl && (g[i] == '?' || g[i] == s[j]) && m[i + 1][j + 1];
+	size_t go = nondet_size_t(), so = nondet_size_t();
+	size_t k; int i, j;
+	vg_havoc();
+	__CPROVER_assume(vg_glen < VG_GN && vg_slen < VG_SN);
+	for (k = 0; k < VG_GN; k++) __CPROVER_assume(k < vg_glen ? vg_glob[k] != 0 : 1);
+	for (k = 0; k < VG_SN; k++) __CPROVER_assume(k < vg_slen ? vg_str[k] != 0 : 1);
+	vg_glob[vg_glen] = 0; vg_str[vg_slen] = 0;
+	for (i = VG_GN - 1; i >= 0; i--) {
+		for (j = VG_SN - 1; j >= 0; j--) {
+			_Bool v = 0;
+			if ((size_t) i <= vg_glen && (size_t) j <= vg_slen) {
+				if ((size_t) i == vg_glen) v = ((size_t) j == vg_slen);
+				else if (vg_glob[i] == '*') v = vg_m[i + 1][j] || ((size_t) j < vg_slen && vg_m[i][j + 1]);
+				else v = (size_t) j < vg_slen && (vg_glob[i] == '?' || vg_glob[i] == vg_str[j]) && vg_m[i + 1][j + 1];
+			}
+			vg_m[i][j] = v;
 		}
 	}
-	r = match_glob(g, s);
-	__CPROVER_assert(r == (int) m[0][0], "match_glob == glob semantics ('*' any run, '?' one character, literal bytes case-sensitively)");
+	__CPROVER_assume(go <= vg_glen && so <= vg_slen);
+	match_glob(vg_glob + go, vg_str + so);
 	VG_CANARY("match_glob functional");
 }
+#endif
